@@ -123,4 +123,45 @@ HistMembers(tc, xs, k) == {i \in 1..Len(xs) : HistEdge2(tc, k - 1) < 2 * xs[i] /
 HistMean(tc, xs, f, k) == LET M == HistMembers(tc, xs, k)
                               idx == SetToSeqI(M)
                           IN  Norm(ISum([j \in 1..Len(idx) |-> f[idx[j]]]), Cardinality(M))
+
+\* ---------------------------------------------------------- 4. presentation
+\* The statement quantifies over BINS, not over the way a caller happens to hand them over.  The same
+\* bins can be presented with every array in floating or in integer storage (legal when every value is a
+\* whole number of storage units; UU lattice points per unit), with the widths as one array, as ONE scalar
+\* (legal when all widths are equal) or omitted (legal here when the bins tile an interval with equal widths:
+\* the widths derived from the mid-points then ARE the widths).  The binned values are the same for every
+\* legal presentation (MC_BinPres: PresRefinesDef).  A presentation of one side (native or target):
+\*    ck  storage of the centres,  wf  form of the widths,  wk  storage of the widths (array or scalar);
+\* the native side also has  fk / ek  storage of the spectrum / of the uncertainties.
+\* Realistic slips (variants): "widthlike" -- a scalar width is expanded into an array of the storage type
+\* of the CENTRES (np.full_like(centres, width)): truncated towards zero when the centres are integers;
+\* "outlike" -- the result arrays take the storage type of the spectrum / of the uncertainties.
+BinC2(b) == b[1] + b[2]
+BinWd(b) == b[2] - b[1]
+PKinds == {"float", "int"}
+PForms == {"array", "scalar", "omitted"}
+SidePres  == {p \in [ck : PKinds, wf : PForms, wk : PKinds] : p.wf = "omitted" => p.wk = "float"}
+PlainSide == [ck |-> "float", wf |-> "array", wk |-> "float"]
+EqualWidths(N) == \A i, j \in 1..Len(N) : BinWd(N[i]) = BinWd(N[j])
+UniformTiling(N) == /\ Len(N) >= 2 /\ EqualWidths(N)
+                    /\ LET q == SortPerm([i \in 1..Len(N) |-> BinC2(N[i])])
+                       IN  \A i \in 1..(Len(N) - 1) : N[q[i]][2] = N[q[i + 1]][1]
+SideLegal(p, N, UU) ==
+    /\ (p.ck = "int") => \A i \in 1..Len(N) : (BinC2(N[i]) % (2 * UU)) = 0
+    /\ (p.wf = "scalar") => EqualWidths(N)
+    /\ (p.wf = "omitted") => UniformTiling(N)
+    /\ (p.wf # "omitted" /\ p.wk = "int") => \A i \in 1..Len(N) : (BinWd(N[i]) % UU) = 0
+LegalSides(N, UU) == {p \in SidePres : SideLegal(p, N, UU)}
+\* the widths the algorithm ends up with
+PresW(p, N, UU, v) == [i \in 1..Len(N) |->
+    IF v = "widthlike" /\ p.wf = "scalar" /\ p.ck = "int" THEN (BinWd(N[i]) \div UU) * UU ELSE BinWd(N[i])]
+\* a non-negative rational stored in an integer cell; the square of an uncertainty stored in an integer cell
+ISqrtFloor(n) == CHOOSE r \in 0..n : r * r <= n /\ n < (r + 1) * (r + 1)
+RFloorQ(a)    == Q(a[1] \div a[2])
+RFloorSq(a)   == LET r == ISqrtFloor(a[1] \div a[2]) IN Q(r * r)
+PresOut(entry, fk, ek, v) ==
+    IF v = "outlike" /\ entry.k = "num"
+    THEN [k |-> "num", v |-> IF fk = "int" THEN RFloorQ(entry.v) ELSE entry.v,
+          e2 |-> IF ek = "int" THEN RFloorSq(entry.e2) ELSE entry.e2]
+    ELSE entry
 =============================================================================
